@@ -294,3 +294,10 @@ package runtime
 //@ ensures[C11] callres((*Stack).Get, 0, 1) != nil && callres(Input.Get, 0, 2) == nil ==> result1 == nil && fresh(result0) && result0.Value == callres(Input.Get, 0, 0) && result0.DType == callres(Input.Get, 0, 1)
 //@ ensures[C11] callres((*Stack).Get, 0, 1) != nil && callres(Input.Get, 0, 2) != nil ==> result1 != nil
 
+
+//@ func (*Task).GetKeyConv2Str
+//@ ensures[C11] ncalls((*Stack).Get) == 1 && callarg((*Stack).Get, 0, 1) == (key == "_" ? "message" : key)
+//@ ensures[C11] callres((*Stack).Get, 0, 1) == nil ==> ncalls(Input.Get) == 0 && ncalls(Conv2String) == 1 && callarg(Conv2String, 0, 0) == callres((*Stack).Get, 0, 0).Value && callarg(Conv2String, 0, 1) == callres((*Stack).Get, 0, 0).DType && result0 == callres(Conv2String, 0, 0) && result1 == callres(Conv2String, 0, 1)
+//@ ensures[C11] callres((*Stack).Get, 0, 1) != nil ==> ncalls(Input.Get) == 1 && callarg(Input.Get, 0, 1) == (key == "_" ? "message" : key)
+//@ ensures[C11] callres((*Stack).Get, 0, 1) != nil && callres(Input.Get, 0, 2) == nil ==> ncalls(Conv2String) == 1 && callarg(Conv2String, 0, 0) == callres(Input.Get, 0, 0) && callarg(Conv2String, 0, 1) == callres(Input.Get, 0, 1) && result0 == callres(Conv2String, 0, 0) && result1 == callres(Conv2String, 0, 1)
+//@ ensures[C11] callres((*Stack).Get, 0, 1) != nil && callres(Input.Get, 0, 2) != nil ==> result1 != nil
